@@ -382,6 +382,11 @@ class TFLiteSerialiser:
             if tens in sg.output_tensors:
                 sg.output_tensors.remove(tens)
 
+        # A subgraph output is part of the model's interface also when no remaining operator produces or reads it
+        # (e.g. a constant that is only consumed by operators that now run on the NPU)
+        for tens in sg.output_tensors:
+            tensor_set[tens] = None
+
         # Add the tensors from all valid ops, as well as the tensors from placeholder ops
         # This allows us to serialise tensors which arent attached to any specific ops,
         # e.g. due to an empty graph containing no ops
